@@ -181,6 +181,73 @@ def footers(ctx):
     return ev
 
 
+LONG_FORMS = [
+    ('atom', 'C3 1 0.5 0.5 0.5 11.0 0.02 0.03 0.04 0.001 0.002 0.003'),
+    ('body', 'SADI 0.02 C1 O1 O1 N1 N1 C2 C1 C2'),
+    ('body', 'SIMU 0.04 0.08 1.7 C1 O1 N1 C2'),
+    ('body', 'FLAT 0.1 C1 O1 N1 C2'),
+    ('body', 'WGHT 0.1 0.2 0.0 0.0 0.0 0.3333'),
+    ('body', 'OMIT C1 O1 N1 C2'),
+    ('body', 'EQIV $1 -x+1, -y+1, -z+1'),
+    ('fvar', 'FVAR 1.0 0.6 0.5 0.4 0.3 0.2'),
+    ('sfac', 'SFAC CU 0.1 0.2 0.3 0.4 0.5 0.6 0.7 0.8 0.9 1.0 1.1 1.2 1.3 63.5'),
+    ('hklf', 'HKLF 4 1 1 0 0 0 1 0 0 0 1 1 0'),
+]
+
+
+def split_lines(tokens, k):
+    """the instruction over k physical lines (k - 1 continuation marks)"""
+    k = min(k, len(tokens))
+    cuts = [round(i * len(tokens) / k) for i in range(k + 1)]
+    parts = [' '.join(tokens[cuts[i]:cuts[i + 1]]) for i in range(k)]
+    return [parts[0] + ' ='] + ['   ' + q + ' =' for q in parts[1:-1]] + ['   ' + parts[-1]]
+
+
+def continuations(ctx):
+    """instructions that become objects, spread over three, four and five physical lines: the model must be the one of the one-line form, in all modes"""
+    ev = 0
+    for where, form in LONG_FORMS:
+        toks = form.split()
+        ref = None
+        for k in (1, 2, 3, 4, 5):
+            phys = [form] if k == 1 else split_lines(toks, k)
+            head, body, tail = list(HEAD), list(ATOMS), list(TAIL)
+            if where == 'fvar':
+                head = HEAD[:-1] + phys
+            elif where == 'sfac':
+                head = HEAD[:6] + phys + ['UNIT 16 20 4 2 1'] + HEAD[7:]
+            elif where == 'hklf':
+                tail = phys + ['END']
+            else:
+                body = ATOMS[:2] + phys + ATOMS[2:]
+            lines = head + body + tail
+            text = '\n'.join(lines) + '\n'
+            for mode in MODES:
+                status, inner, shx = im.read_text(text, mode)
+                ev += 1
+                case = {'instruction': form, 'physical_lines': k, 'mode': mode, 'text': text}
+                if status != 'ok' or inner:
+                    common.add_violation(ctx, 'a valid instruction spread over several lines raises', case, 'no exception', status + ' / ' + str(inner))
+                    continue
+                if shx.error_line_num != len(lines) - 1 or not shx.end:
+                    common.add_violation(ctx, 'parsing did not reach the last line (instruction spread over several lines)', case, len(lines) - 1, shx.error_line_num)
+                    continue
+                stream = []
+                for kind, val in im.instr_tokens(shx):
+                    if kind == 'raw':       # instructions kept as text keep their physical lines: compare the tokens
+                        t = val.split()
+                        stream += t[:-1] if t and t[-1] == '=' else t
+                    else:
+                        stream += [kind] + (val if isinstance(val, list) else [val])
+                model = (im.atoms_table(shx), stream, [list(r.atoms) for r in shx.restraints],
+                         [float(f.fvar_value) for f in shx.fvars.fvars], len(shx.sfac_table.elements_list))
+                if ref is None:
+                    ref = model
+                elif model != ref:
+                    common.add_violation(ctx, 'the model of an instruction spread over several lines differs from the model of its one-line form', case, 'identical', 'different')
+    return ev
+
+
 def random_files(ctx, n):
     rng = ctx.rng
     ev = 0
@@ -254,14 +321,14 @@ def run(ctx):
     else:
         ctx.discharged += 1
     ng, nacc = run_grid(ctx)
-    n1 = covering(ctx) + footers(ctx) + context_forms(ctx)
+    n1 = covering(ctx) + footers(ctx) + context_forms(ctx) + continuations(ctx)
     n2 = random_files(ctx, 3000 if ctx.thorough() else 40)
     n3 = malformed(ctx, 150000 if ctx.thorough() else 1500)
     ctx.cov['evaluations'] = ng + n1 + n2 + n3
     ctx.cov['distinct_nontrivial'] = ng + n1 // 3
     ctx.cov['rule'] = ('grid keyword x 0..11 (thorough 0..14) numeric parameters x 0..3 (0..5) names in three modes for the model correspondence '
                        '(%d grid points, %d accepted); covering set every keyword x every admissible arity x word count x position (first / middle / '
-                       'before HKLF) x mode against the expected atom list; random valid files; byte-mutated files in quiet mode' % (ng, nacc))
+                       'before HKLF) x mode against the expected atom list; long instructions over 1-5 physical lines; random valid files; byte-mutated files in quiet mode' % (ng, nacc))
     ctx.assumptions += ['float()/int() on the modelled numeral grammar; tokens are printable ASCII',
                         'hand-written acceptance model Model/Cards.v validated on the grid in all three modes',
                         'quiet-mode totality on malformed text is a test (mutation fuzzing), not a theorem']
